@@ -465,6 +465,19 @@ def getAll (tls13 : Bool) : Nat → Defrag → List Rec → List GOut × Option 
       let (gs, e, d'') := getAll tls13 fuel d' recs'
       (g :: gs, e, d'')
 
+/-! ## sender side: the fragmentation loop of `_sendMsg` -/
+
+/-- `while len(buf) > self.recordSize: send buf[:recordSize]; buf = buf[recordSize:]` then the rest.
+    `fuel` bounds the iterations (the Python loop does not terminate for recordSize = 0). -/
+def fragmentLoop (recordSize : Nat) : Nat → Bytes → List Bytes
+  | 0, buf => [buf]
+  | fuel + 1, buf =>
+    if buf.length > recordSize then buf.take recordSize :: fragmentLoop recordSize fuel (buf.drop recordSize)
+    else [buf]
+
+/-- the record payloads `_sendMsg` produces for one message buffer -/
+def fragmentMsg (recordSize : Nat) (buf : Bytes) : List Bytes := fragmentLoop recordSize buf.length buf
+
 /-! ## _getNextRecord over a device, and the alert peek of `_sendMsgThroughSocket` -/
 
 /-- RecordLayer.recvRecord before any key change (null cipher): the record as read from the
